@@ -21,92 +21,124 @@ Import ListNotations.
 Require Import V.models.Boot V.proofs.BootProofs.
 Open Scope N_scope.
 
-(* UC20: whatever kernel and base the initramfs mounts, at the moment it mounts them, is known-good or THE revision
-   under trial; and the kernel snap it mounts is the image grub chainloaded (kernel.efi / try-kernel.efi agree with the
-   initramfs' choice). The set under trial is replaced by every completed request: see fin_ak in models/Boot.v. *)
-Theorem C17_boots_good_or_try : forall fx g k0 b0 evs i k b, fx || g = true ->
-  let m := run20 fx g (init20 k0 b0) evs in
-  ph m = PhFw i -> ph (step20 fx g m EInitramfs) = PhRun k b ->
+(* UC20 (cf = Grub: kernel.efi / try-kernel.efi links + grub.cfg; cf = EnvNS: snap_kernel / snap_try_kernel in the
+   bootloader environment, firmware that cannot run scripts, status advanced by the initramfs -- piboot).
+   Whatever kernel and base the initramfs mounts, at the moment it mounts them, is known-good or THE revision under
+   trial; and the kernel snap it mounts is the image the firmware started. *)
+Theorem C17_boots_good_or_try : forall cf fx g k0 b0 evs i k b, fx || g = true ->
+  let m := run20 cf fx g (init20 k0 b0) evs in
+  ph m = PhFw i -> ph (step20 cf fx g m EInitramfs) = PhRun k b ->
   k = i /\ (In k (gk m) \/ In k (ak m)) /\ (In b (gb m) \/ In b (ab m)).
 Proof. intros * Hg m Hp Hs. eapply mounts_good_or_try; eauto. exists evs; reflexivity. Qed.
 Print Assumptions C17_boots_good_or_try.
 
 (* UC20: in every reachable state, also between two writes, kernel.efi and the modeenv base name known-good revisions *)
-Theorem C17_fallback_known_good : forall fx g k0 b0 evs, fx || g = true ->
-  let m := run20 fx g (init20 k0 b0) evs in In (kl (st m)) (gk m) /\ In (m_base (me (st m))) (gb m).
+Theorem C17_fallback_known_good : forall cf fx g k0 b0 evs, fx || g = true ->
+  let m := run20 cf fx g (init20 k0 b0) evs in In (kl (st m)) (gk m) /\ In (m_base (me (st m))) (gb m).
 Proof. intros * Hg m. eapply fallback_known_good; eauto. exists evs; reflexivity. Qed.
 Print Assumptions C17_fallback_known_good.
 
+(* UC20: the good revision is never removed from the boot environment while it is the fall-back: the fall-back kernel
+   is known-good AND still listed in current_kernels (so the initramfs accepts it), the fall-back base is known-good *)
+Theorem C17_fallback_never_removed : forall cf fx g k0 b0 evs, fx || g = true ->
+  let m := run20 cf fx g (init20 k0 b0) evs in
+  g && in_window m = false ->
+  In (kl (st m)) (gk m) /\ In (kl (st m)) (m_ck (me (st m))) /\ In (m_base (me (st m))) (gb m).
+Proof. intros * Hg m. eapply fallback_never_removed; eauto. exists evs; reflexivity. Qed.
+Print Assumptions C17_fallback_never_removed.
+
 (* UC20: a revision becomes known-good only when snapd, running on it, starts MarkBootSuccessful *)
-Theorem C17_good_only_after_mark : forall fx g m e,
-  (gk (step20 fx g m e) = gk m /\ gb (step20 fx g m e) = gb m) \/
+Theorem C17_good_only_after_mark : forall cf fx g m e,
+  (gk (step20 cf fx g m e) = gk m /\ gb (step20 cf fx g m e) = gb m) \/
   (exists k b, ph m = PhRun k b /\ e = EOp Mark /\
-               gk (step20 fx g m e) = k :: gk m /\ gb (step20 fx g m e) = b :: gb m).
+               gk (step20 cf fx g m e) = k :: gk m /\ gb (step20 cf fx g m e) = b :: gb m).
 Proof. exact known_good_only_by_mark. Qed.
 Print Assumptions C17_good_only_after_mark.
 
-(* UC20: the boot never stops (no untrusted kernel.efi without fallback, grub never stuck on a missing try kernel) *)
-Theorem C17_never_dead_end : forall fx g k0 b0 evs, fx || g = true ->
-  ph (run20 fx g (init20 k0 b0) evs) <> PhDead.
+(* UC20: the boot never stops (no untrusted kernel without fallback, grub never stuck on a missing try kernel) *)
+Theorem C17_never_dead_end : forall cf fx g k0 b0 evs, fx || g = true ->
+  ph (run20 cf fx g (init20 k0 b0) evs) <> PhDead.
 Proof. intros * Hg. eapply never_dead; eauto. exists evs; reflexivity. Qed.
 Print Assumptions C17_never_dead_end.
 
 (* ... and without the guard the full statement is false of the code as it is (finding) *)
-Theorem C17_dead_end_refuted : exists evs, ph (run20 false false (init20 1 1) evs) = PhDead.
+Theorem C17_dead_end_refuted : exists evs, ph (run20 Grub false false (init20 1 1) evs) = PhDead.
 Proof. exists dead_end_witness. exact dead_end_reached. Qed.
 Print Assumptions C17_dead_end_refuted.
 
 (* UC20: a failed or interrupted kernel trial (kernel_status still trying at the reset) is followed by a boot of the
-   kernel kernel.efi points to, and that kernel is known-good *)
-Theorem C17_failed_kernel_trial_returns : forall fx g k0 b0 evs, fx || g = true ->
-  let m := run20 fx g (init20 k0 b0) evs in
+   fall-back kernel, and that kernel is known-good (whatever the tryboot flag) *)
+Theorem C17_failed_kernel_trial_returns : forall cf fx g k0 b0 evs, fx || g = true ->
+  let m := run20 cf fx g (init20 k0 b0) evs in
   g && in_window m = false -> ks (st m) = STrying ->
-  exists b, ph (run20 fx g m [EReset; EFirmware; EInitramfs]) = PhRun (kl (st m)) b /\ In (kl (st m)) (gk m).
+  forall tb, exists b, ph (run20 cf fx g m [EReset; EFirmware tb; EInitramfs]) = PhRun (kl (st m)) b /\ In (kl (st m)) (gk m).
 Proof. intros * Hg m. eapply failed_kernel_trial_returns; eauto. exists evs; reflexivity. Qed.
 Print Assumptions C17_failed_kernel_trial_returns.
 
 (* UC20: bounded fallback -- from every reachable state, a reset is followed by a mount within two firmware rounds
-   (a missing or untrusted try kernel costs one extra round; no try loop, no dead end) *)
-Theorem C17_boot_terminates : forall fx g k0 b0 evs, fx || g = true ->
-  let m := run20 fx g (init20 k0 b0) evs in
+   (a missing or untrusted try kernel costs one extra round; no try loop, no dead end). The tryboot flag is one-shot:
+   only the first firmware run can have it. *)
+Theorem C17_boot_terminates : forall cf fx g k0 b0 evs, fx || g = true ->
+  let m := run20 cf fx g (init20 k0 b0) evs in
   g && in_window m = false ->
-  exists k b, ph (run20 fx g m [EReset; EFirmware; EInitramfs; EFirmware; EInitramfs]) = PhRun k b.
+  forall tb, exists k b,
+    ph (run20 cf fx g m [EReset; EFirmware tb; EInitramfs; EFirmware false; EInitramfs]) = PhRun k b.
 Proof. intros * Hg m. eapply boot_terminates; eauto. exists evs; reflexivity. Qed.
 Print Assumptions C17_boot_terminates.
 
 (* UC20: a failed base trial (base_status still trying when the initramfs runs) mounts the modeenv base, which is
    known-good, and clears the status *)
-Theorem C17_failed_base_trial_returns : forall fx g k0 b0 evs, fx || g = true ->
-  let m := run20 fx g (init20 k0 b0) evs in
+Theorem C17_failed_base_trial_returns : forall cf fx g k0 b0 evs, fx || g = true ->
+  let m := run20 cf fx g (init20 k0 b0) evs in
   m_bst (me (st m)) = STrying ->
   snd (initramfs_base (me (st m))) = m_base (me (st m)) /\ m_bst (fst (initramfs_base (me (st m)))) = SDef /\
   In (m_base (me (st m))) (gb m).
 Proof. intros * Hg m. eapply failed_base_trial_returns; eauto. exists evs; reflexivity. Qed.
 Print Assumptions C17_failed_base_trial_returns.
 
-(* UC16/18 -- PARTIAL: the gadget's boot script is not in the repository; the firmware step is modelled from the
-   protocol comment above boot.MarkBootSuccessful. Full statement otherwise: every booted kernel/core is known-good or
-   requested for trial, snap_kernel/snap_core (never empty) always name known-good revisions. Every operation is one
-   SetBootVars call, so a power loss falls before or after it. *)
-Theorem C17_uc16_boots_good_or_try_partial : forall k0 c0 evs k c,
-  let m := run16 (init16 k0 c0) evs in
-  ph16 m = P16Off -> ph16 (step16 m E16Firmware) = P16Run k c ->
-  (In k (gk16 m) \/ In k (ak16 m)) /\ (In c (gc16 m) \/ In c (ac16 m)) /\
-  In (sk (s16 m)) (gk16 m) /\ In (sc (s16 m)) (gc16 m).
+(* UC16/18, kernel AND core. The boot script lives in the gadget snap, outside this repository: it is a parameter fw,
+   and the theorems hold for EVERY script that satisfies the contract fw16_ok (BootProofs.v) read off the protocol
+   comment above boot.MarkBootSuccessful: it only rewrites snap_mode; try -> trying and boots snap_try_* where set;
+   trying -> "" and boots snap_*; otherwise boots snap_*. firmware16 (used for the correspondence) satisfies it.
+   Every operation is one SetBootVars call, so a power loss falls before or after it (E16Reset at any point). *)
+Theorem C17_uc16_boots_good_or_try : forall fw k0 c0 evs k c, fw16_ok fw ->
+  let m := run16 fw (init16 k0 c0) evs in
+  ph16 m = P16Off -> ph16 (step16 fw m E16Firmware) = P16Run k c ->
+  (In k (gk16 m) \/ In k (ak16 m)) /\ (In c (gc16 m) \/ In c (ac16 m)).
 Proof. exact boots16_good_or_try. Qed.
-Print Assumptions C17_uc16_boots_good_or_try_partial.
+Print Assumptions C17_uc16_boots_good_or_try.
 
-Theorem C17_uc16_failed_trial_returns_partial : forall k0 c0 evs,
-  let m := run16 (init16 k0 c0) evs in mode (s16 m) = STrying ->
-  ph16 (run16 m [E16Reset; E16Firmware]) = P16Run (sk (s16 m)) (sc (s16 m)) /\
+(* UC16/18: snap_kernel / snap_core (the fall-back; never empty) always name known-good revisions: the good one is
+   never removed from the boot environment while it is the fall-back *)
+Theorem C17_uc16_fallback_known_good : forall fw k0 c0 evs, fw16_ok fw ->
+  let m := run16 fw (init16 k0 c0) evs in In (sk (s16 m)) (gk16 m) /\ In (sc (s16 m)) (gc16 m).
+Proof. exact fallback16_known_good. Qed.
+Print Assumptions C17_uc16_fallback_known_good.
+
+Theorem C17_uc16_failed_trial_returns : forall fw k0 c0 evs, fw16_ok fw ->
+  let m := run16 fw (init16 k0 c0) evs in mode (s16 m) = STrying ->
+  ph16 (run16 fw m [E16Reset; E16Firmware]) = P16Run (sk (s16 m)) (sc (s16 m)) /\
   In (sk (s16 m)) (gk16 m) /\ In (sc (s16 m)) (gc16 m).
 Proof. exact failed_trial16_returns. Qed.
-Print Assumptions C17_uc16_failed_trial_returns_partial.
+Print Assumptions C17_uc16_failed_trial_returns.
 
-(* not scriptable bootloaders (piboot) -- PARTIAL: only the initramfs status update is covered (complete domain); the
-   firmware's tryboot behaviour is not modelled. The status advances try -> trying only when the firmware really used
-   the try configuration (kernel_status=trying on the command line); anything else ends the trial. *)
-Theorem C17_not_scriptable_status_partial : forall conf cl,
+Theorem C17_uc16_good_only_after_mark : forall fw m e,
+  (gk16 (step16 fw m e) = gk16 m /\ gc16 (step16 fw m e) = gc16 m) \/
+  (exists k c, ph16 m = P16Run k c /\ e = E16Op Mark16 /\
+               gk16 (step16 fw m e) = k :: gk16 m /\ gc16 (step16 fw m e) = c :: gc16 m).
+Proof. exact known_good16_only_by_mark. Qed.
+Print Assumptions C17_uc16_good_only_after_mark.
+
+(* the contract is satisfiable: the script used for the correspondence meets it *)
+Theorem C17_uc16_script_contract_met : fw16_ok firmware16.
+Proof. exact firmware16_ok. Qed.
+Print Assumptions C17_uc16_script_contract_met.
+
+(* not scriptable bootloaders: boot/initramfs.go updateNotScriptableBootloaderStatus on its complete domain. The status
+   advances try -> trying only when the firmware really used the try configuration (kernel_status=trying on the command
+   line); anything else ends the trial. The whole configuration (cf = EnvNS) is covered by the UC20 theorems above; the
+   Raspberry Pi firmware itself is not in the repository and is modelled (firmware_ns in models/Boot.v). *)
+Theorem C17_not_scriptable_status : forall conf cl,
   not_scriptable_update conf cl =
     match conf with
     | SDef => None
@@ -114,28 +146,50 @@ Theorem C17_not_scriptable_status_partial : forall conf cl,
     | _ => Some SDef
     end.
 Proof. exact not_scriptable_spec. Qed.
-Print Assumptions C17_not_scriptable_status_partial.
+Print Assumptions C17_not_scriptable_status.
 
-(* non-vacuity: both guard instances exist; a trial boot is reachable; a failed trial comes back *)
+(* non-vacuity: both guard instances exist; trial boots are reachable in every configuration; a failed trial state
+   is reachable; the repaired code survives the window; cancelled trials leave the set under trial *)
 Example guard_code_as_is : false || true = true. Proof. reflexivity. Qed.
 Example guard_repaired : true || false = true. Proof. reflexivity. Qed.
-Example trial_boot_reachable :
-  ph (run20 false true (init20 1 1)
-        [EFirmware; EInitramfs; EOp (SetK 2 false); EWrite; EWrite; EWrite; EReset; EFirmware; EInitramfs]) = PhRun 2 1.
+Definition try_kernel_2 : list ev20 :=
+  [EFirmware false; EInitramfs; EOp (SetK 2 false); EWrite; EWrite; EWrite; EReset; EFirmware true; EInitramfs].
+Example trial_boot_reachable_grub : ph (run20 Grub false true (init20 1 1) try_kernel_2) = PhRun 2 1.
 Proof. vm_compute. reflexivity. Qed.
-Example failed_trial_state_reachable :
-  ks (st (run20 false true (init20 1 1)
-        [EFirmware; EInitramfs; EOp (SetK 2 false); EWrite; EWrite; EWrite; EReset; EFirmware; EInitramfs])) = STrying.
+Example trial_boot_reachable_ns : ph (run20 EnvNS false true (init20 1 1) try_kernel_2) = PhRun 2 1.
 Proof. vm_compute. reflexivity. Qed.
-Example repaired_undo_survives_the_window :
-  ph (run20 true false (init20 1 1) dead_end_witness) = PhRun 2 1.
+Example failed_trial_state_reachable_grub : ks (st (run20 Grub false true (init20 1 1) try_kernel_2)) = STrying.
+Proof. vm_compute. reflexivity. Qed.
+Example failed_trial_state_reachable_ns : ks (st (run20 EnvNS false true (init20 1 1) try_kernel_2)) = STrying.
+Proof. vm_compute. reflexivity. Qed.
+Example ns_power_loss_instead_of_tryboot_ends_the_trial :   (* no tryboot flag: the try kernel is not started *)
+  let m := run20 EnvNS false true (init20 1 1)
+             [EFirmware false; EInitramfs; EOp (SetK 2 false); EWrite; EWrite; EReset; EFirmware false; EInitramfs] in
+  ph m = PhRun 1 1 /\ ks (st m) = SDef.
+Proof. vm_compute. auto. Qed.
+Example base_trial_reachable :
+  ph (run20 Grub false true (init20 1 1)
+        [EFirmware false; EInitramfs; EOp (SetB 2 false); EWrite; EReset; EFirmware false; EInitramfs]) = PhRun 1 2.
+Proof. vm_compute. reflexivity. Qed.
+Example ns_dead_end_also_reachable_without_guard : ph (run20 EnvNS false false (init20 1 1) dead_end_witness) = PhDead.
+Proof. vm_compute. reflexivity. Qed.
+Example repaired_undo_survives_the_window_grub : ph (run20 Grub true false (init20 1 1) dead_end_witness) = PhRun 2 1.
+Proof. vm_compute. reflexivity. Qed.
+Example repaired_undo_survives_the_window_ns : ph (run20 EnvNS true false (init20 1 1) dead_end_witness) = PhRun 2 1.
 Proof. vm_compute. reflexivity. Qed.
 Example cancelled_trial_is_not_under_trial :
-  let m := run20 false true (init20 1 1)
-             [EFirmware; EInitramfs; EOp (SetB 2 false); EWrite; EOp (SetB 1 false); EWrite] in
+  let m := run20 Grub false true (init20 1 1)
+             [EFirmware false; EInitramfs; EOp (SetB 2 false); EWrite; EOp (SetB 1 false); EWrite] in
   ab m = [] /\ m_bst (me (st m)) = SDef.
 Proof. vm_compute. auto. Qed.
 Example single_revision_under_trial :
-  ak (run20 false true (init20 1 1)
-        [EFirmware; EInitramfs; EOp (SetK 2 false); EWrite; EWrite; EWrite; EOp (SetK 3 false); EWrite; EWrite; EWrite]) = [3].
+  ak (run20 Grub false true (init20 1 1)
+        [EFirmware false; EInitramfs; EOp (SetK 2 false); EWrite; EWrite; EWrite; EOp (SetK 3 false); EWrite; EWrite; EWrite]) = [3].
+Proof. vm_compute. reflexivity. Qed.
+(* UC16: a trial boot and a failed trial are reachable with the correspondence script *)
+Example uc16_trial_boot :
+  ph16 (run16 firmware16 (init16 1 1) [E16Firmware; E16Op (Set16 true 2 false); E16Reset; E16Firmware]) = P16Run 2 1.
+Proof. vm_compute. reflexivity. Qed.
+Example uc16_failed_trial_state :
+  mode (s16 (run16 firmware16 (init16 1 1) [E16Firmware; E16Op (Set16 false 2 false); E16Reset; E16Firmware])) = STrying.
 Proof. vm_compute. reflexivity. Qed.
